@@ -6,6 +6,7 @@ mod gen_inflights;
 mod gen_memstorage;
 mod gen_quorum;
 mod gen_rawnode;
+mod gen_raftnode;
 mod gen_raftlog;
 mod rng;
 
@@ -29,11 +30,22 @@ fn replay(path: &str, out: &mut dyn Write) -> u64 {
     let mut rl = gen_raftlog::Exec::default();
     let mut ms = gen_memstorage::Exec::default();
     let mut rw = gen_rawnode::Exec::default();
+    let mut rnx = gen_raftnode::Exec::default();
+    gen_raftnode::start_watchdog();
     let mut n = 0;
     for line in text.lines() {
         let lhs = line.split(" -> ").next().unwrap_or("");
         let toks: Vec<&str> = lhs.split_whitespace().collect();
         if toks.is_empty() || toks[0].starts_with('#') {
+            continue;
+        }
+        if toks[0] == "rn" {
+            // the line itself is rewritten: the rnd token depends on what the call did
+            // flushed line by line: the hang watchdog of gen_raftnode writes to the descriptor directly
+            out.flush().unwrap();
+            writeln!(out, "rn {}", rnx.exec_line(&toks[1..])).unwrap();
+            out.flush().unwrap();
+            n += 1;
             continue;
         }
         if toks[0] == "rw" {
@@ -195,6 +207,15 @@ fn real_main() {
             }
         }
         "rawnode" => gen_rawnode::random(seed, arg(&args, "--cases", 300), arg(&args, "--len", 120), &mut out),
+        "raftnode" => gen_raftnode::generate(
+            seed,
+            arg(&args, "--offset", 0),
+            arg(&args, "--runs", 20),
+            arg(&args, "--steps", 1500),
+            args.iter().any(|a| a == "--malformed"),
+            &arg(&args, "--coverage", String::new()),
+            &mut out,
+        ),
         "cluster" => cluster(&args, seed, &mut out),
         "replay" => replay(args.get(2).expect("replay <file>"), &mut out),
         _ => {
